@@ -192,8 +192,12 @@ def desugar_map_err_try(item, drops):
                             break
                     j -= 1
                 i = j
-            elif ch.isalnum() or ch in '_:.':
+            elif ch.isalnum() or ch in '_:.&*':
                 i -= 1
+            elif ch.isspace() and item[i] == '.':
+                # a method chain continued on the next line: skip the whole whitespace run
+                while i > 0 and item[i - 1].isspace():
+                    i -= 1
             else:
                 break
         recv = item[i:m.start()]
@@ -232,7 +236,7 @@ def instantiate(unit, drops, extracted):
     def grab2(mm):
         injects[mm.group(1)] = mm.group(2)
         return ''
-    tpl = re.sub(r'/\*@inject (\w+)\n(.*?)@\*/\n?', grab2, tpl, flags=re.S)
+    tpl = re.sub(r'/\*@(?:inject|implspec) (\w+)\n(.*?)@\*/\n?', grab2, tpl, flags=re.S)
     out = []
     for line in tpl.split('\n'):
         s = line.strip()
@@ -308,7 +312,8 @@ def instantiate(unit, drops, extracted):
                 item = desugar_ref_patterns(item, drops)
                 item = desugar_map_err_try(item, drops)
             for fn in cons:
-                item = apply_contract(item, fn, contracts[fn])
+                fname, _, label = fn.partition(':')
+                item = apply_contract(item, fname, contracts[label or fname])
             if strip:
                 item = extract.strip_macro_calls(item, strip, drops)
             out.append(item)
